@@ -69,6 +69,36 @@ def load_baseline(suites):
     return ids
 
 
+def repo_src_hash(src=None):
+    '''Hash over the repository's Python sources (tests excluded): tells the tree the baseline was written on
+    from a changed one.'''
+    import hashlib
+    base = src or os.environ.get('PYVC_REPO_SRC') or '/repo/src'
+    h = hashlib.sha256()
+    files = []
+    for root, _dirs, names in os.walk(base):
+        if '/test' in root or '__pycache__' in root:
+            continue
+        files.extend(os.path.join(root, n) for n in names if n.endswith('.py'))
+    for f in sorted(files):
+        h.update(os.path.relpath(f, base).encode())
+        with open(f, 'rb') as fh:
+            h.update(hashlib.sha256(fh.read()).digest())
+    return h.hexdigest()[:24]
+
+
+def baseline_tree_hashes(suites):
+    hs = set()
+    for s in suites:
+        p = os.path.join(ROOT, 'baseline', s + '.json')
+        if os.path.exists(p):
+            with open(p) as f:
+                h = json.load(f).get('repo_src_hash')
+            if h:
+                hs.add(h)
+    return hs
+
+
 def write_baseline(suite, src=None):
     out = driver.run([suite], timeout_ms=10000, src=src, quiet=False, unit_limit_s=900)
     ids = sorted({o['id'] for r in out['results'] for o in r['obligations'] if o['status'] == 'discharged'})
@@ -77,7 +107,7 @@ def write_baseline(suite, src=None):
     import subprocess
     head = subprocess.run(['git', '-C', '/repo', 'rev-parse', 'HEAD'], capture_output=True, text=True).stdout.strip()
     with open(os.path.join(ROOT, 'baseline', suite + '.json'), 'w') as f:
-        json.dump({'repo_head': head, 'discharged': ids, 'not_discharged': bad}, f, indent=0)
+        json.dump({'repo_head': head, 'repo_src_hash': repo_src_hash(src), 'discharged': ids, 'not_discharged': bad}, f, indent=0)
     print('baseline %s: %d discharged, %d not' % (suite, len(ids), len(bad)))
     for b in bad:
         print('  not discharged:', b)
@@ -88,6 +118,7 @@ def write_baseline(suite, src=None):
 PROP_BOUNDED = {
     'C07': 'harness/c07_bounded.py',
     'C05': 'harness/c05_bounded.py',
+    'C06': 'harness/c06_bounded.py',
 }
 
 
@@ -212,6 +243,9 @@ def main(argv=None):
             retried.append(r['unit'])
     baseline = load_baseline(suites)
     base_units = {b.split('/')[0] for b in baseline}
+    base_trees = baseline_tree_hashes(suites)
+    tree_changed = bool(base_trees) and repo_src_hash(a.src) not in base_trees
+    lost = []
     violations = []
     undecided = []
     problems = []
@@ -262,6 +296,11 @@ def main(argv=None):
                 # the solver has a model against the clause: a clause of the property itself, or an
                 # auxiliary one (frame, callee precondition, loop invariant) the property's proof rests on
                 violations.append((r, o, kind))
+            elif tree_changed and o['id'] in baseline:
+                # proved on the unchanged tree, not provable on this one (after the second run with twice the
+                # budget), and the solver has no model either: reported as the failed obligation it is,
+                # without a failing input
+                lost.append((r, o, kind))
             else:
                 undecided.append('%s: %s (%s clause)' % (o['id'], o['status'], kind))
     for msg in covers_bad:
@@ -291,6 +330,12 @@ def main(argv=None):
             if not reproduced:
                 line += ' no-failing-input-found'
             vio_lines.append(line)
+    for r, o, kind in lost:
+        from pyvc import replay
+        path = replay.write_unproved(prop, r, o, a.src)
+        vio_notes.append('failed obligation: %s (%s clause; discharged on the unchanged tree, not provable on this tree: '
+                         'solver answers unknown within twice the budget, no counter-model)' % (o['id'], kind))
+        vio_lines.append('VIOLATION property=%s replay=%s no-failing-input-found' % (prop, path))
     bounded, b_lines, b_problems = run_bounded(prop, a.tier, a.src)
     for line in b_lines:
         vio_notes.append('bounded stand-in found a failing input on the real code (see the replay file)')
